@@ -34,6 +34,9 @@
 #include "ref_mpi.h"
 #include "ref_sort.h"
 #include "ref_validation.h"
+#ifdef NASA_REFINE_VERIF
+#include "ref_verif.h"
+#endif
 
 #define MAX_CELL_COLLAPSE (100)
 #define MAX_NODE_LIST (1000)
@@ -328,6 +331,9 @@ REF_FCN REF_STATUS ref_collapse_edge(REF_GRID ref_grid, REF_INT node0,
   REF_INT ncell, cell_in_list;
   REF_INT cell_to_collapse[MAX_CELL_COLLAPSE];
 
+#ifdef NASA_REFINE_VERIF
+  ref_verif_op("begin", "collapse_edge", ref_grid, node0, node1, REF_EMPTY);
+#endif
   ref_cell = ref_grid_tet(ref_grid);
   RSS(ref_cell_list_with2(ref_cell, node0, node1, MAX_CELL_COLLAPSE, &ncell,
                           cell_to_collapse),
@@ -363,6 +369,9 @@ REF_FCN REF_STATUS ref_collapse_edge(REF_GRID ref_grid, REF_INT node0,
 
   RSS(ref_node_remove(ref_grid_node(ref_grid), node1), "rm");
   RSS(ref_geom_remove_all(ref_grid_geom(ref_grid), node1), "rm");
+#ifdef NASA_REFINE_VERIF
+  ref_verif_op("accept", "collapse_edge", ref_grid, node0, node1, REF_EMPTY);
+#endif
 
   return REF_SUCCESS;
 }
